@@ -154,6 +154,21 @@ def mixed_flag_view_chain(n, prog, env, types):
     return len(flags_seen) == 2
 
 
+def view_of_nonconstant_view_of_constant(n, prog, env, types):
+    """Form B of the known finding, as a mechanism: tensor n is a view whose MyGrad base is CONSTANT while the tensor it was directly taken
+    from is a NON-constant view of that memory.  MyGrad derives a view's gradient from its ultimate base only; with a constant base there
+    is nothing to derive it from, so n reports its own received gradient (or None when it received none) instead of the view of its
+    parent's gradient - which is what it reports when the constant base is a plain array and the parent therefore owns the memory.
+    A non-constant view taken DIRECTLY of constant memory (the repaired case) has a constant parent and does not match."""
+    t = env.get(n)
+    if not mgrun.is_tensor(t) or t.base is None or not t.base.constant or t.constant:
+        return False
+    stc = next((q for q in prog if q.get("out") == n and q["k"] == "call"), None)
+    par = next((r for r in (mgrun.stmt_refs(stc) if stc else []) if types.get(r, ("", ""))[0] == "tensor"), None)
+    pt = env.get(par) if par else None
+    return bool(mgrun.is_tensor(pt) and pt is not t.base and pt.base is t.base and not pt.constant)
+
+
 def model_flags(prog, it_types, raised):
     """Reference model of the constant flag of every tensor-valued name. it_types: name -> ('tensor'|'array'|'other', dtype kind)."""
     flags, must_raise = {}, {}
@@ -394,7 +409,9 @@ def run_case(case):
             if not same:
                 viol.append({"monitor": "O-meta", "mech": "constant-tensor-vs-array",
                              # (form B: a dangling view - outside every back-propagated graph - of a non-constant view of a constant base)
-                             "blocked_by_constant_view": n not in reach_all and mixed_flag_view_chain(n, prog, it.env, types),
+                             # or, more generally, any view of a non-constant view of constant memory, inside a graph or not)
+                             "blocked_by_constant_view": (n not in reach_all and mixed_flag_view_chain(n, prog, it.env, types))
+                             or view_of_nonconstant_view_of_constant(n, prog, it.env, types),
                              "msg": f"{n}.grad differs when constant tensors {sorted(replaced)} are passed as plain arrays: {None if g is None else g.ravel()[:3]} vs {None if h is None else h.ravel()[:3]}"})
     if any(st["k"] == "backward" and st["tgt"] == "L2" for st in prog):
         cnt["second_graph_backwards"] = 1
